@@ -73,8 +73,9 @@ def run(only=None):
             props = [p for p in props if p == only]
         for prop in props:
             if prop == 'C11' and not os.environ.get('SELFTEST_KANI'):
-                print('selftest %s: skipped (set SELFTEST_KANI=1; about 2 min per change)' % prop)
-                continue
+                # the Kani rows take 2-3 minutes per run: the self-test exercises the Verus part of C11 only (SELFTEST_KANI=1 runs both)
+                os.environ['VERIF_C11_VERUS_ONLY'] = '1'
+                print('selftest %s: Verus part only (set SELFTEST_KANI=1 for the rows as well)' % prop)
             fresh()
             rc, out = run_check(prop, copy)
             print('selftest %s unchanged copy: exit %d' % (prop, rc))
@@ -108,8 +109,6 @@ def run(only=None):
                         bad += 1
                 continue
             if only and meta['property'] != only:
-                continue
-            if meta['property'] == 'C11' and not os.environ.get('SELFTEST_KANI'):
                 continue
             fresh()
             a = subprocess.run(['git', 'apply', os.path.join(os.path.dirname(m), 'patch.diff')], cwd=copy, capture_output=True, text=True)
